@@ -87,6 +87,7 @@ func WriteProgram(root string, sh Shape) error {
 		os.MkdirAll(dir, 0o755)
 		os.WriteFile(filepath.Join(dir, "zz_main_test.go"), []byte(strings.ReplaceAll(tmplMain, "{{PKG}}", p.Name)), 0o644)
 		os.WriteFile(filepath.Join(dir, "helper.go"), []byte(strings.ReplaceAll(tmplHelper, "{{PKG}}", p.Name)), 0o644)
+		os.WriteFile(filepath.Join(dir, "zy_helpers_test.go"), []byte(strings.ReplaceAll(tmplOtherTestHelpers, "{{PKG}}", p.Name)), 0o644)
 		for _, f := range p.Files {
 			var fn strings.Builder
 			for _, t := range f.Tests {
@@ -193,6 +194,14 @@ type RunOpt struct {
 	Extra    []string
 	Env      []string
 	Strace   string // when set: path of an strace log to produce
+	// AsNobody: run the child as uid/gid 65534 with the given roots read-only (files 0444,
+	// directories 0555): permission bits bind, as they do for an ordinary user on a
+	// read-only checkout
+	AsNobody bool
+	// Writable (with AsNobody): the roots are made writable for everybody instead, except the
+	// files listed in ReadOnly (0444)
+	Writable bool
+	ReadOnly []string
 	Inject   string // when set: strace fault injection, e.g. "unlink,unlinkat:error=EPERM" (every such call of the child fails)
 }
 
@@ -301,6 +310,54 @@ func (p *Program) RunChild(o RunOpt) *RunResult {
 		calls := o.Inject[:strings.IndexByte(o.Inject, ':')]
 		name = "strace"
 		full = append([]string{"-f", "-qq", "-e", "trace=" + calls, "-e", "inject=" + o.Inject, "-o", "/dev/null", bin}, args...)
+	}
+	if o.AsNobody {
+		openUp := func(p string) {
+			for ; p != "/" && p != "."; p = filepath.Dir(p) {
+				if fi, err := os.Stat(p); err == nil && fi.IsDir() {
+					os.Chmod(p, fi.Mode().Perm()|0o055)
+				}
+			}
+		}
+		openUp(filepath.Dir(bin))
+		openUp(outdir)
+		os.Chmod(outdir, 0o777)
+		os.Chmod(scn, 0o644)
+		for _, r := range o.Scenario.Roots {
+			openUp(r)
+			filepath.Walk(r, func(pth string, fi os.FileInfo, err error) error {
+				if err == nil {
+					switch {
+					case fi.IsDir() && o.Writable:
+						os.Chmod(pth, 0o777)
+					case fi.IsDir():
+						os.Chmod(pth, 0o555)
+					case fi.Mode().IsRegular() && o.Writable:
+						os.Chmod(pth, 0o666)
+					case fi.Mode().IsRegular():
+						os.Chmod(pth, 0o444)
+					}
+				}
+				return nil
+			})
+		}
+		for _, f := range o.ReadOnly {
+			os.Chmod(f, 0o444)
+		}
+		full = append([]string{"--reuid=65534", "--regid=65534", "--clear-groups", name}, full...)
+		name = "setpriv"
+		defer func() {
+			for _, r := range o.Scenario.Roots {
+				filepath.Walk(r, func(pth string, fi os.FileInfo, err error) error {
+					if err == nil && fi.IsDir() {
+						os.Chmod(pth, 0o755)
+					} else if err == nil && fi.Mode().IsRegular() {
+						os.Chmod(pth, 0o644)
+					}
+					return nil
+				})
+			}
+		}()
 	}
 	cmd := exec.Command("timeout", append([]string{"-s", "QUIT", "120", name}, full...)...)
 	cmd.Dir = o.Cwd
@@ -529,6 +586,10 @@ func Analyze(res *RunResult, pkgSrcDir string) *Analysis {
 				a.SkipEv++
 			}
 		case "call":
+			if e.Call.Via == "direct-othertest" {
+				// the call statement sits in the package's helper-only test file
+				e.SrcFile = "zy_helpers_test.go"
+			}
 			c := &CallRec{Seq: e.Seq, Test: e.Test, Idx: e.Idx, Call: *e.Call, SrcFile: e.SrcFile}
 			st := execs[e.Test]
 			if st == nil {
